@@ -54,6 +54,12 @@ def clause_options(k: int, quick: bool):
     opts = list(PLAIN)
     for later in NAMES[k + 1:]:
         opts += ref_clauses(later)
+    later = NAMES[k + 1:]
+    if len(later) >= 2:
+        # two different saved queries referenced from one clause: when the first of them
+        # references the second as well, that page is reached along two acyclic paths
+        opts.append([[["ref", later[0]], ["ref", later[1]]]])
+        opts.append([[["ref", later[1]]], [["ref", later[0]], ["tag", "+", "j1", False]]])
     return opts
 
 
